@@ -450,7 +450,7 @@ def tlc_jobs(ctx):
     q = ctx.quick()
     jobs = [('Closure', 'Closure_mc.cfg' if q else 'Closure_mc4.cfg', None),
             ('JsLexAdj', 'JsLexAdj_full3.cfg' if q else 'JsLexAdj_full4.cfg', 'adj-full'),
-            ('JsLexAdj', 'JsLexAdj_core5.cfg' if q else 'JsLexAdj_core6.cfg', 'adj-core')]
+            ('JsLexAdj', 'JsLexAdj_core4.cfg' if q else 'JsLexAdj_core6.cfg', 'adj-core')]
     res = {}
 
     def one(j):
@@ -496,17 +496,17 @@ def run(ctx):
     # (b) the repository's own test inputs
     for lang in LANGS:
         for b, origin in tests[lang]:
-            sets = OPTSETS[lang] if not quick or only_fixed else ['default', rnd.choice(OPTSETS[lang][1:])]
+            sets = OPTSETS[lang] if not quick or only_fixed else [rnd.choice(OPTSETS[lang])] if rnd.random() < 0.7 else ['default', rnd.choice(OPTSETS[lang][1:])]
             for o in sets:
                 cs.add(lang, o, data=b, origin=origin, allow_known=True)
     # JS test inputs inside HTML hosts (embedded languages): script element and event handler
     for b, origin in (tests['js'] if not only_pinned else []):
         low = b.lower()
-        if b'</script' in low or b'<!--' in low:
+        if b'</script' in low or b'<!--' in low or (quick and rnd.random() < 0.5):
             continue
         cs.add('html', 'default', data=b'<!doctype html><title>t</title><p>x<script>' + b + b'</script><p>y', origin='host-script:' + origin)
     for b, origin in (tests['css'] if not only_pinned else []):
-        if b'</style' in b.lower():
+        if b'</style' in b.lower() or (quick and rnd.random() < 0.5):
             continue
         cs.add('html', 'default', data=b'<style>' + b + b'</style><p style="color:red">x', origin='host-style:' + origin)
     # (c) seeded mutations and boundary splices
@@ -521,7 +521,7 @@ def run(ctx):
         for b, origin in tests[lang]:
             if not excluded(lang, 'names', b):
                 pools[lang].append(b)
-    nmut = 2400 if quick else 40000
+    nmut = 1500 if quick else 40000
     if only_pinned:
         nmut = 0
     for k in range(nmut):
@@ -538,7 +538,7 @@ def run(ctx):
         o = 'default' if rnd.random() < 0.6 else rnd.choice(OPTSETS[lang][1:])
         cs.add(lang, o, data=m[:400000], origin='mut:' + op)
     # small edits of whole large documents (real-world size, embedded languages)
-    nbig = 40 if quick else 600
+    nbig = 24 if quick else 600
     if only_pinned:
         nbig = 0
     for k in range(nbig):
@@ -569,8 +569,8 @@ def run(ctx):
     rest = [p for p in uniq if p not in mset]
     ctx.coverage['adjacency_fusion_critical'] = len(must)
     if quick:
-        must = vlib.sample(must, 4500, rnd)
-        rest = vlib.sample(rest, 1500, rnd)
+        must = vlib.sample(must, 2200, rnd)
+        rest = vlib.sample(rest, 600, rnd)
     else:
         must = vlib.sample(must, 80000, rnd)
         rest = vlib.sample(rest, 40000, rnd)
@@ -579,7 +579,7 @@ def run(ctx):
     for p in chosen:
         src = b' '.join(cls[c - 1][1] for c in p)
         for wrap, wname in ((b'x=%s;', 'assign'), (b'%s;', 'stmt')):
-            if wname == 'stmt' and len(p) > 3:
+            if wname == 'stmt' and (len(p) > 3 or quick and rnd.random() < 0.6):
                 continue
             if cs.add('js', 'default', data=wrap % src, origin='adj:' + wname + ':' + '.'.join(cls[c - 1][0] for c in p), adj=list(p)) is not None:
                 nadj += 1
@@ -611,7 +611,7 @@ def run(ctx):
     # (e) outputs fed back as inputs (every output is itself an accepted input: the property applies to it again)
     re_ids = []
     cand = [i for i in ids if lines[i]['acc1'] and lines[i]['acc2'] and not lines[i]['same12']]
-    for i in (vlib.sample(cand, 1500, rnd) if quick else cand):
+    for i in (vlib.sample(cand, 500, rnd) if quick else cand):
         c = cs.cases[i]
         p = os.path.join(outdir, '%d.out' % i)
         if os.path.exists(p):
